@@ -25,6 +25,7 @@ class G:
         self.phys_ok = (kind != "surface")
         self.funcs_ok = funcs_ok
         self.counter = [0]
+        self.lets = []            # user-defined variables (vf.let), in definition order
 
     def pick(self, seq):
         return self.draw(st.sampled_from(list(seq)))
@@ -50,6 +51,27 @@ class G:
             return self.pick(cands)
         return self.new_input(shape, "spline" if need_spline else None)
 
+    def get_var(self, shape, depth):
+        """Reference to a user-defined variable (vf.let) of the given shape; new variables may refer to older ones."""
+        shape = tuple(shape)
+        cands = [v for v in self.lets if tuple(v["shape"]) == shape]
+        if cands and (self.chance(0.5) or len(self.lets) >= 4):
+            return ["var", self.pick(cands)["name"]]
+        d = max(depth - 1, 0)
+        sym = False
+        if shape == ():
+            expr = gen_scalar(self, max(d, 1))
+        elif len(shape) == 1:
+            expr = gen_vector(self, shape[0], max(d, 1))
+        else:
+            expr = gen_matrix(self, shape, d)
+            if shape[0] == shape[1] and self.chance(0.5):
+                expr = ["+", expr, ["T", expr]]
+                sym = True
+        v = {"name": "w%d" % len(self.lets), "shape": list(shape), "expr": expr, "symmetric": sym}
+        self.lets.append(v)
+        return ["var", v["name"]]
+
     def get_param(self, shape):
         cands = [p for p in self.params if tuple(p["shape"]) == tuple(shape)]
         if cands and (self.chance(0.5) or len(self.params) >= 3):
@@ -74,7 +96,9 @@ def gen_scalar(g, depth):
     d = g.dim
     leaf = depth <= 0 or g.chance(0.3)
     if leaf:
-        k = g.pick(["const", "param", "input", "input", "x", "dinput", "jacentry"])
+        k = g.pick(["const", "param", "input", "input", "x", "dinput", "jacentry", "var"])
+        if k == "var":
+            return g.get_var((), depth) if depth >= 1 else ["const", g.pick(CONSTS)]
         if k == "const":
             return ["const", g.pick(CONSTS)]
         if k == "param":
@@ -140,7 +164,7 @@ def gen_scalar(g, depth):
 
 def gen_vector(g, n, depth):
     d = g.dim
-    leafs = ["param", "input", "lit"]
+    leafs = ["param", "input", "lit"] + (["var"] if depth >= 1 else [])
     if n == g.geo_dim:
         leafs.append("x")
         if g.kind in ("surface", "boundary"):
@@ -149,6 +173,8 @@ def gen_vector(g, n, depth):
         leafs.append("gradinput")
     if depth <= 0 or g.chance(0.35):
         k = g.pick(leafs)
+        if k == "var":
+            return g.get_var((n,), depth)
         if k == "param":
             return ["param", g.get_param((n,))["name"]]
         if k == "input":
@@ -180,13 +206,15 @@ def gen_vector(g, n, depth):
 def gen_matrix(g, shape, depth):
     d = g.dim
     m, n = shape
-    leafs = ["param", "input", "lit"]
+    leafs = ["param", "input", "lit"] + (["var"] if depth >= 1 else [])
     if shape == (g.geo_dim, d):
         leafs += ["jac", "jac"]
     if n == d:
         leafs.append("gradinput")
     if depth <= 0 or g.chance(0.4):
         k = g.pick(leafs)
+        if k == "var":
+            return g.get_var(shape, depth)
         if k == "param":
             return ["param", g.get_param(shape)["name"]]
         if k == "input":
@@ -349,10 +377,39 @@ def form(draw, dims=(1, 2, 3), max_terms=2, depth=2, kinds=("volume", "volume", 
         geo["height"] = [draw(st.integers(-8, 8)) / 8.0 for _ in range(7)]
     spec = {"dim": dim, "arity": arity, "kind": kind, "comps": comps,
             "spaces": [0, 1] if two else None, "kvs": spaces_kvs, "geo": geo, "inputs": inputs, "params": params,
-            "terms": terms, "bd": None}
+            "lets": g.lets, "terms": terms, "bd": None}
     if kind == "boundary":
         spec["bd"] = [draw(st.integers(0, dim - 1)), draw(st.integers(0, 1))]
     return spec
+
+
+@st.composite
+def nested_let_form(draw, levels=(2, 3)):
+    """A form whose coefficient is a chain of user-defined variables w_{k} = op(w_{k-1}, ...): only the outermost variable
+    is referenced from the integrand, the inner ones only from other variables' definitions."""
+    dim = draw(st.sampled_from([1, 2, 2, 3]))
+    arity = draw(st.sampled_from([1, 2]))
+    kvs0 = [draw(gk.knotvec(pmin=1, pmax=2, nmin=1, nmax=2, decades=1, interval="unit")) for _ in range(dim)]
+    inputs, params = [], []
+    g = G(draw, dim, dim, "volume", inputs, params)
+    n = draw(st.sampled_from(list(levels)))
+    chain = []
+    prev = None
+    for k in range(n):
+        body = gen_scalar(g, 1)
+        if prev is not None:
+            body = [draw(st.sampled_from(["*", "+", "-"])), ["var", prev], body] if draw(st.booleans()) else \
+                ["*", ["const", draw(st.sampled_from([2.5, 0.5, -1.5]))], ["var", prev]]
+        name = "z%d" % k
+        chain.append({"name": name, "shape": [], "expr": body, "symmetric": False})
+        prev = name
+    # variables created while generating the bodies (named w<k>) are defined first; a body only refers to
+    # variables that existed when it was generated, so this order is admissible
+    lets = list(g.lets) + chain
+    body = ["*", ["*", ["var", prev], ["u"]], ["v"]] if arity == 2 else ["*", ["var", prev], ["v"]]
+    geo = draw(gg.geometry_map(dim, pmax=1, nmax=1))
+    return {"dim": dim, "arity": arity, "kind": "volume", "comps": None, "spaces": None, "kvs": [kvs0], "geo": geo, "inputs": inputs,
+            "params": params, "lets": lets, "terms": [["*", body, ["dxm"]]], "bd": None}
 
 
 # ---------------------------------------------------------------------------------------------
@@ -482,6 +539,8 @@ def build_vform(spec):
             return sym["param:" + node[1]]
         if op == "input":
             return sym["input:" + node[1]]
+        if op == "var":
+            return sym["var:" + node[1]]
         if op == "x":
             return vf.Geo
         if op == "jac":
@@ -544,6 +603,8 @@ def build_vform(spec):
         if op == "dsm":
             return V.ds
         raise ValueError("unknown node %r" % (op,))
+    for v in spec.get("lets", []):
+        sym["var:" + v["name"]] = vf.let(v["name"], b(v["expr"]), symmetric=bool(v.get("symmetric")))
     for t in spec["terms"]:
         vf.add(b(t))
     return vf
